@@ -114,6 +114,19 @@ EffsFrom(ps, i) ==
 
 TermEffs(ps) == EffsFrom(ps, 1)
 
+\* Does the list end inside an extended-colour group?  Such a list is not self-contained: what a terminal
+\* makes of it depends on the parameters that follow it in the same sequence.
+RECURSIVE TruncFrom(_, _)
+TruncFrom(ps, i) ==
+  IF i > Len(ps) THEN FALSE
+  ELSE IF IsExt(ps[i]) THEN
+    IF i = Len(ps) THEN TRUE
+    ELSE IF ps[i+1] = 5 THEN (IF i + 2 > Len(ps) THEN TRUE ELSE TruncFrom(ps, i + 3))
+    ELSE IF ps[i+1] = 2 THEN (IF i + 4 > Len(ps) THEN TRUE ELSE TruncFrom(ps, i + 5))
+    ELSE FALSE
+  ELSE TruncFrom(ps, i + 1)
+EndsTruncated(ps) == TruncFrom(ps, 1)
+
 \* Is the integer list exactly ONE complete known parameter group other than reset?
 SingleGroup(ps) ==
   /\ Len(ps) >= 1
@@ -130,13 +143,15 @@ SingleGroup(ps) ==
 (*                   parsable; the only class display claims are made for) *)
 (*         "multi" : digits and ';' only and read unambiguously by a       *)
 (*                   terminal, but not a single group (e.g. "1;31", "0")   *)
-(*         "other" : everything else                                       *)
+(*         "other" : everything else (also a list that ends inside an      *)
+(*                   extended-colour group: its reading depends on what    *)
+(*                   follows it in the rendered sequence)                  *)
 (***************************************************************************)
 SemOf(text) ==
   LET pl == ParamList(text) IN
   IF ~pl.ok THEN [cls |-> "other", effs |-> << >>]
   ELSE LET r == TermEffs(pl.ps) IN
-       IF ~r.ok THEN [cls |-> "other", effs |-> << >>]
+       IF ~r.ok \/ EndsTruncated(pl.ps) THEN [cls |-> "other", effs |-> << >>]
        ELSE [cls |-> IF SingleGroup(pl.ps) THEN "single" ELSE "multi", effs |-> r.effs]
 
 ---------------------------------------------------------------------------
